@@ -131,11 +131,11 @@ impl anstyle_parse::Perform for WinconCapture {
                         break;
                     }
                     (State::Normal, 4) => {
-                        style = style.underline();
+                        style = without_underline(style).underline();
                         state = State::Underline;
                     }
                     (State::Normal, 21) => {
-                        style |= anstyle::Effects::DOUBLE_UNDERLINE;
+                        style = without_underline(style) | anstyle::Effects::DOUBLE_UNDERLINE;
                         break;
                     }
                     (State::Normal, 7) => {
@@ -231,38 +231,22 @@ impl anstyle_parse::Perform for WinconCapture {
                         }
                     },
                     (State::Underline, 0) => {
-                        style = style.effects(
-                            style
-                                .get_effects()
-                                .remove(anstyle::Effects::UNDERLINE)
-                                .remove(anstyle::Effects::DOUBLE_UNDERLINE)
-                                .remove(anstyle::Effects::CURLY_UNDERLINE)
-                                .remove(anstyle::Effects::DOTTED_UNDERLINE)
-                                .remove(anstyle::Effects::DASHED_UNDERLINE),
-                        );
+                        style = without_underline(style);
                     }
                     (State::Underline, 1) => {
                         // underline already set
                     }
                     (State::Underline, 2) => {
-                        style = style
-                            .effects(style.get_effects().remove(anstyle::Effects::UNDERLINE))
-                            | anstyle::Effects::DOUBLE_UNDERLINE;
+                        style = without_underline(style) | anstyle::Effects::DOUBLE_UNDERLINE;
                     }
                     (State::Underline, 3) => {
-                        style = style
-                            .effects(style.get_effects().remove(anstyle::Effects::UNDERLINE))
-                            | anstyle::Effects::CURLY_UNDERLINE;
+                        style = without_underline(style) | anstyle::Effects::CURLY_UNDERLINE;
                     }
                     (State::Underline, 4) => {
-                        style = style
-                            .effects(style.get_effects().remove(anstyle::Effects::UNDERLINE))
-                            | anstyle::Effects::DOTTED_UNDERLINE;
+                        style = without_underline(style) | anstyle::Effects::DOTTED_UNDERLINE;
                     }
                     (State::Underline, 5) => {
-                        style = style
-                            .effects(style.get_effects().remove(anstyle::Effects::UNDERLINE))
-                            | anstyle::Effects::DASHED_UNDERLINE;
+                        style = without_underline(style) | anstyle::Effects::DASHED_UNDERLINE;
                     }
                     _ => {
                         break;
@@ -296,6 +280,19 @@ enum ColorTarget {
     Fg,
     Bg,
     Underline,
+}
+
+/// The underline style is a single attribute: selecting one replaces the others
+fn without_underline(style: anstyle::Style) -> anstyle::Style {
+    style.effects(
+        style
+            .get_effects()
+            .remove(anstyle::Effects::UNDERLINE)
+            .remove(anstyle::Effects::DOUBLE_UNDERLINE)
+            .remove(anstyle::Effects::CURLY_UNDERLINE)
+            .remove(anstyle::Effects::DOTTED_UNDERLINE)
+            .remove(anstyle::Effects::DASHED_UNDERLINE),
+    )
 }
 
 fn to_ansi_color(digit: u16) -> Option<anstyle::AnsiColor> {
